@@ -86,6 +86,19 @@ def check_pipeline(case, rec):
         if n and not (np.isnan(v[0]) and np.isnan(v[-1])):
             raise Violation(col + ':first-last-not-nan', '%r %r' % (v[0], v[-1]))
     ranges(df, F, n)
+    if case.get('re_evaluate') and n >= 3:
+        # cycles located on one version of the recording and re-evaluated on another (a smoothed copy): the burst features of the
+        # finished table, asked for again with the other signal, follow that signal
+        from bycycle.features import compute_burst_features
+        x2 = np.convolve(x, np.ones(5) / 5.0, mode='same') + 0.25 * x
+        keep_tbl = df.copy(deep=True)
+        bf2 = guarded(compute_burst_features, df, x2, burst_method='cycles')
+        cmp_exact('monotonicity[re-evaluated on another signal]', bf2['monotonicity'].values, ref.ref_monotonicity(x2, df))
+        cmp_exact('period_consistency[re-evaluated]', bf2['period_consistency'].values, df['period_consistency'].values)
+        ok_, why_ = ref.frames_equal(df, keep_tbl)
+        if not ok_:
+            raise Violation('table-modified-by-compute_burst_features', why_)
+        rec.label('re-evaluated-on-another-signal')
     va = (F[0::2] + F[1::2]) / 2
     ties = len(np.unique(va)) < len(va)
     plateau = False
@@ -198,6 +211,7 @@ def strat_pipeline(draw, tier):
     case = draw(gen.st_analysis_case(methods=('cycles',), tie_rich=draw(st.booleans())))
     case['return_samples'] = True
     case['via_rename'] = draw(st.integers(0, 2)) == 0
+    case['re_evaluate'] = draw(st.integers(0, 2)) == 0
     return case
 
 
